@@ -779,7 +779,7 @@ class ExprMixin:
         for r in results:
             if r[0] == "raise":
                 # the comprehension raises when some iteration does
-                facts = [f_ for f_ in r[2] if not any(_mentions(f_, c) for c in (base, endc))]
+                facts = [f_ for f_ in r[2] if f_.get_id() in r[4].dec_ids]
                 cond = z3.And(*facts) if facts else z3.BoolVal(True)
                 if any(_mentions(cond, c) for c in [i] + fresh):
                     # depends on the iteration: it must be impossible (for all i), unless the contract allows it
@@ -819,7 +819,8 @@ class ExprMixin:
         for r in oks:
             _, v, facts, q, s2 = r
             vz = st.coerce(v, et).z
-            body = list(facts) + [res_elems[i] == vz]
+            guards = [f_ for f_ in facts if f_.get_id() in s2.dec_ids]
+            body = [f_ for f_ in facts if f_.get_id() not in s2.dec_ids] + [res_elems[i] == vz]
             # Content of the objects created in this iteration.  Cells of unallocated references are unconstrained
             # (every quantified heap fact is guarded by `o < alloc` or by membership), so the content an object
             # gets at allocation is stated directly on the current maps ("pre-filled" view of fresh cells).
@@ -841,7 +842,7 @@ class ExprMixin:
                             body.append(st.map("fnone_" + fname, z3.BoolSort())[ref] == isn)
                         if val.t[0] != "none":
                             body.append(st.map("f_" + fname, self.ctx.sort_of(t))[ref] == st.coerce(val, t).z)
-            conj = z3.And(*body)
+            conj = z3.Implies(z3.And(*guards), z3.And(*body)) if guards else z3.And(*body)
             (conj_f,), submap = self._functionize(i, fresh, [conj])
             st.assume(z3.ForAll([i], z3.Implies(z3.And(i >= 0, i < n_len), conj_f), patterns=[res_elems[i]]))
         # reference intervals of different iterations are disjoint (objects of iteration i precede those of j > i)
